@@ -645,6 +645,20 @@ func symFloatBinop(op token.Token, k types.BasicKind, x, y value) value {
 		if isZeroF(y) && nonNegZero(x) {
 			return x
 		}
+		// lemma L_add0_comm: (0+a)+b == (0+b)+a for all floats (discharged bit-precisely by
+		// cvc5 in every run that relies on it): canonical order of a, b under a leading +0.
+		if UseLemmaAdd0 {
+			if a, b, ok := matchAdd0(x, y); ok {
+				if argKey(a) > argKey(b) {
+					a, b = b, a
+				}
+				var z value = float32(0)
+				if k == types.Float64 {
+					z = float64(0)
+				}
+				return app(k, "fadd", p+"_add", app(k, "fadd", p+"_add", z, a), b)
+			}
+		}
 		if argKey(x) > argKey(y) { // IEEE addition is commutative (incl. NaN-ness; payloads are not observable in Go comparisons)
 			x, y = y, x
 		}
@@ -986,4 +1000,31 @@ func preludeT2() string {
 	}
 	sb.WriteString("(define-fun cvt_f32_f64 ((a F32)) F64 ((_ to_fp 11 53) RNE a))\n(define-fun cvt_f64_f32 ((a F64)) F32 ((_ to_fp 8 24) RNE a))\n")
 	return sb.String()
+}
+
+// UseLemmaAdd0 enables the rewrite justified by lemma L_add0_comm.
+var UseLemmaAdd0 = true
+
+func isAdd0(v value) (value, bool) {
+	s, ok := v.(*Sym)
+	if !ok || s.op != "fadd" || len(s.args) != 2 {
+		return nil, false
+	}
+	if isZeroF(s.args[0]) {
+		return s.args[1], true
+	}
+	return nil, false
+}
+
+// matchAdd0 matches (0+a)+b with exactly one side of the form 0+a.
+func matchAdd0(x, y value) (value, value, bool) {
+	ax, okx := isAdd0(x)
+	ay, oky := isAdd0(y)
+	switch {
+	case okx && !oky:
+		return ax, y, true
+	case oky && !okx:
+		return ay, x, true
+	}
+	return nil, nil, false
 }
